@@ -256,8 +256,8 @@ Proof.
   cbn [orb negb andb] in *;
   destruct (Qltb (x2 s) xmin) eqn:L2; destruct (Qltb xmax (x2 s)) eqn:R2; destruct (Qltb (y2 s) ymin) eqn:T2; destruct (Qltb ymax (y2 s)) eqn:B2;
   cbn [orb negb andb cL cR cT cB] in *; try discriminate;
-  pose proof L1 as L1'; pose proof R1 as R1'; pose proof T1 as T1'; pose proof B1 as B1';
-  pose proof L2 as L2'; pose proof R2 as R2'; pose proof T2 as T2'; pose proof B2 as B2';
+  pose proof (eq_sym L1) as L1'; pose proof (eq_sym R1) as R1'; pose proof (eq_sym T1) as T1'; pose proof (eq_sym B1) as B1';
+  pose proof (eq_sym L2) as L2'; pose proof (eq_sym R2) as R2'; pose proof (eq_sym T2) as T2'; pose proof (eq_sym B2) as B2';
   repeat match goal with
   | H : Qltb _ _ = true |- _ => apply Qltb_iff in H
   | H : Qltb _ _ = false |- _ => apply Qltb_false in H
@@ -267,10 +267,6 @@ Proof.
       let E := fresh "E" in destruct (Qeqb d 0) eqn:E; [discriminate|apply Qeqb_false in E]; intros Hs; injection Hs as <-
   end.
   all: unfold cnt; cbn [x1 y1 x2 y2].
-  all: match goal with
-  | |- context [mkst] => idtac
-  | _ => idtac
-  end.
   (* parameter of the new point, and the flags of the new point *)
   all: match goal with
   | |- context [Qltb ((?dy / ?dx) * (?b - x1 ?s0) + y1 ?s0) ymin] =>
@@ -286,16 +282,13 @@ Proof.
       destruct (moved_point_flags s0 u ((dx / dy) * (b - y1 s0) + x1 s0) b U0 U1
                  ltac:(unfold px; field; assumption) ltac:(unfold py; field; assumption)) as (F1 & F2 & F3 & F4)
   end.
-  all: rewrite ?L1', ?R1', ?T1', ?B1', ?L2', ?R2', ?T2', ?B2' in *; rewrite ?Qltb_irrefl in *.
+  all: rewrite <- ?L1', <- ?R1', <- ?T1', <- ?B1', <- ?L2', <- ?R2', <- ?T2', <- ?B2' in *; rewrite ?Qltb_irrefl in *.
   all: assert (Hmn : Qltb xmax xmin = false) by (apply Qltb_false; exact Hx).
   all: assert (Hmn' : Qltb ymax ymin = false) by (apply Qltb_false; exact Hy).
   all: rewrite ?Hmn, ?Hmn' in *.
   all: cbn [orb] in *.
-  all: repeat match goal with
-  | |- context [b2n (orb ?b _)] => destruct b eqn:?
-  | |- context [b2n (orb _ ?b)] => destruct b eqn:?
-  | |- context [b2n ?b] => match b with true => fail 1 | false => fail 1 | _ => destruct b eqn:? end
-  end; cbn [orb b2n] in *.
+  all: repeat match goal with |- context [Qltb ?a ?b] => let E := fresh "N" in destruct (Qltb a b) eqn:E end.
+  all: cbn [orb b2n] in *.
   all: try lia.
   all: repeat match goal with
   | F : true = true -> false = true |- _ => specialize (F eq_refl); discriminate F
@@ -303,5 +296,98 @@ Proof.
   end.
   all: try discriminate.
   all: try lia.
+Qed.
+
+(* ---------- how a pass can stop ---------- *)
+Lemma pass_inl it s e : pass xmin xmax ymin ymax it s = inl e ->
+  let c1 := clip_code (x1 s) (y1 s) xmin xmax ymin ymax in
+  let c2 := clip_code (x2 s) (y2 s) xmin xmax ymin ymax in
+  (e = Accept /\ czero c1 && czero c2 = true) \/
+  (e = Reject /\ cand c1 c2 = true) \/
+  (e = Failsafe /\ czero c1 && czero c2 = false /\ (3 <? it)%nat = true) \/
+  e = DivZero.
+Proof.
+  unfold pass. cbv zeta.
+  destruct (czero _ && czero _) eqn:EA; [intros H; injection H as <-; left; split; reflexivity|].
+  destruct (cand _ _) eqn:EC; [intros H; injection H as <-; right; left; split; reflexivity|].
+  destruct (3 <? it)%nat eqn:EI; [intros H; injection H as <-; right; right; left; repeat split; reflexivity|].
+  repeat match goal with |- context [if ?b then _ else _] => destruct b end; intros H; try discriminate H; injection H as <-; right; right; right; reflexivity.
+Qed.
+
+Lemma loop_ok : forall fuel it s, Inv s -> (cnt s + it <= 4)%nat -> (cnt s < fuel)%nat ->
+  let r := loop fuel xmin xmax ymin ymax it s in
+  Inv (snd r) /\
+  ((fst r = Accept /\ czero (clip_code (x1 (snd r)) (y1 (snd r)) xmin xmax ymin ymax) && czero (clip_code (x2 (snd r)) (y2 (snd r)) xmin xmax ymin ymax) = true) \/
+   (fst r = Reject /\ cand (clip_code (x1 (snd r)) (y1 (snd r)) xmin xmax ymin ymax) (clip_code (x2 (snd r)) (y2 (snd r)) xmin xmax ymin ymax) = true)).
+Proof.
+  induction fuel as [|f IH]; intros it s I Hc Hf; [lia|].
+  cbn [loop]. destruct (pass xmin xmax ymin ymax it s) as [e|s'] eqn:P.
+  - cbn [fst snd]. split; [exact I|].
+    destruct (pass_inl it s e P) as [[Ee A]|[[Ee A]|[[Ee [A B]]|Ee]]]; subst e.
+    + left. split; [reflexivity|exact A].
+    + right. split; [reflexivity|exact A].
+    + exfalso. apply Nat.ltb_lt in B. assert (Z0 : cnt s = 0%nat) by lia.
+      rewrite (cnt_zero_accept s Z0) in A. discriminate.
+    + exfalso. exact (pass_no_div0 it s P).
+  - pose proof (pass_decreases it s s' P) as D. pose proof (pass_step it s s' I P) as I'.
+    apply IH; [exact I'|lia|lia].
+Qed.
+
+Lemma affine_lt a b t1 t2 t m : t1 <= t -> t <= t2 -> a + t1 * b < m -> a + t2 * b < m -> a + t * b < m.
+Proof.
+  intros H1 H2 A B. destruct (Qlt_le_dec b 0) as [N|P].
+  - assert (0 <= (t - t1) * (- b)) by (apply Qmult_le_0_compat; lra). lra.
+  - assert (0 <= (t2 - t) * b) by (apply Qmult_le_0_compat; lra). lra.
+Qed.
+Lemma affine_gt a b t1 t2 t m : t1 <= t -> t <= t2 -> m < a + t1 * b -> m < a + t2 * b -> m < a + t * b.
+Proof.
+  intros H1 H2 A B. destruct (Qlt_le_dec b 0) as [N|P].
+  - assert (0 <= (t2 - t) * (- b)) by (apply Qmult_le_0_compat; lra). lra.
+  - assert (0 <= (t - t1) * b) by (apply Qmult_le_0_compat; lra). lra.
+Qed.
+
+(* ---------- the result ---------- *)
+Definition clip_spec (r : exit * st) : Prop :=
+  match fst r with
+  | Accept => exists t1 t2, 0 <= t1 /\ t1 <= t2 /\ t2 <= 1 /\
+      x1 (snd r) == sx t1 /\ y1 (snd r) == sy t1 /\ x2 (snd r) == sx t2 /\ y2 (snd r) == sy t2 /\
+      inside (x1 (snd r)) (y1 (snd r)) /\ inside (x2 (snd r)) (y2 (snd r)) /\
+      forall t, 0 <= t <= 1 -> inside (sx t) (sy t) -> t1 <= t <= t2
+  | Reject => forall t, 0 <= t <= 1 -> ~ inside (sx t) (sy t)
+  | _ => False
+  end.
+
+Theorem clip_segment_correct : clip_spec (clip_segment xmin xmax ymin ymax (mkst X1 Y1 X2 Y2)).
+Proof.
+  unfold clip_segment.
+  pose proof (cnt_le_4 (mkst X1 Y1 X2 Y2)) as C4.
+  destruct (loop_ok 6 0 (mkst X1 Y1 X2 Y2) Inv_init ltac:(lia) ltac:(lia)) as [I [[E A]|[E A]]];
+  set (r := loop 6 xmin xmax ymin ymax 0 (mkst X1 Y1 X2 Y2)) in *; unfold clip_spec; rewrite E.
+  - apply andb_true_iff in A. destruct A as [A1 A2]. apply czero_inside in A1, A2.
+    destruct I as (t1 & t2 & H0 & H12 & H1 & E1 & E2 & E3 & E4 & Hc).
+    exists t1, t2. repeat (split; [assumption|]). exact Hc.
+  - destruct I as (t1 & t2 & H0 & H12 & H1 & E1 & E2 & E3 & E4 & Hc).
+    intros t Ht Hin. destruct (Hc t Ht Hin) as [Ta Tb].
+    unfold cand, clip_code in A. cbn [cL cR cT cB] in A.
+    rewrite E1, E2, E3, E4 in A || idtac.
+    destruct Hin as (I1 & I2 & I3 & I4).
+    repeat (apply orb_true_iff in A; destruct A as [A|A]); apply andb_true_iff in A; destruct A as [P1 P2];
+      apply Qltb_iff in P1, P2.
+    + rewrite E1 in P1. rewrite E3 in P2. unfold sx in *. pose proof (affine_lt X1 (X2 - X1) t1 t2 t xmin Ta Tb P1 P2). lra.
+    + rewrite E1 in P1. rewrite E3 in P2. unfold sx in *. pose proof (affine_gt X1 (X2 - X1) t1 t2 t xmax Ta Tb P1 P2). lra.
+    + rewrite E2 in P1. rewrite E4 in P2. unfold sy in *. pose proof (affine_lt Y1 (Y2 - Y1) t1 t2 t ymin Ta Tb P1 P2). lra.
+    + rewrite E2 in P1. rewrite E4 in P2. unfold sy in *. pose proof (affine_gt Y1 (Y2 - Y1) t1 t2 t ymax Ta Tb P1 P2). lra.
+Qed.
+
+(* accept exactly when some part of the segment is inside *)
+Corollary clip_accept_iff : fst (clip_segment xmin xmax ymin ymax (mkst X1 Y1 X2 Y2)) = Accept <->
+  exists t, 0 <= t <= 1 /\ inside (sx t) (sy t).
+Proof.
+  pose proof clip_segment_correct as C. unfold clip_spec in C.
+  destruct (fst (clip_segment xmin xmax ymin ymax (mkst X1 Y1 X2 Y2))) eqn:E; try contradiction.
+  - split; [intros _|reflexivity].
+    destruct C as (t1 & t2 & H0 & H12 & H1 & E1 & E2 & E3 & E4 & In1 & In2 & Hc).
+    exists t1. split; [lra|]. unfold inside in *. rewrite <- E1, <- E2. exact In1.
+  - split; [discriminate|]. intros (t & Ht & Hin). exfalso. exact (C t Ht Hin).
 Qed.
 End Clip.
